@@ -92,6 +92,12 @@ func (c *FileBackupClient) PosMap(ctx context.Context) (map[string]ltx.Pos, erro
 		if err != nil {
 			return nil, err
 		}
+
+		// A directory without a transaction file (e.g. one that only holds the
+		// temporary file of a failed upload) is a database the service lacks.
+		if pos.IsZero() {
+			continue
+		}
 		m[ent.Name()] = pos
 	}
 
